@@ -29,7 +29,81 @@ def run(ctx):
         # into it — visible when the levels use different objectives or when a shared budget runs out
         runs.monitor_batch(ctx, PID, ctx.size(50, 500), salt=29, name="traced-runs-monitor-C02(local-or-population-leaves,per-level-objectives-or-exhausted-budget)", force=_shared_objects),
         slice_contracted(ctx, ctx.rng(31), ctx.size(300, 4000)),
+        # a filter the model does not know (MahalanobisFarEnough screens candidates against CMA-ES children):
+        # monitors only — the candidates it screens are stored individuals of the parent
+        runs.monitor_batch(ctx, PID, ctx.size(30, 300), salt=37, name="traced-runs-monitor-C02(MahalanobisFarEnough over CMA-ES children)", force=_mahalanobis),
+        slice_cobyla(ctx, ctx.rng(39), ctx.size(24, 200)),
     ]
+
+
+def _cobyla_spec(rng):
+    """a SEA root with COBYLA leaves on the death-penalty objective or with a budget that runs out"""
+    spec = runs.rand_spec(rng, nlev=2, engines={0: ["sea", "de", "ga"], 1: ["local"]}, objective=str(rng.choice(["penalty", "four"])),
+                          gsc={"kind": "MetaepochLimit", "limit": int(rng.integers(3, 7))}, shared_problem=True)
+    spec["levels"][1]["method"] = "COBYLA"
+    spec["levels"][1]["maxiter"] = int(rng.integers(3, 12))
+    spec["cutoff"] = int(rng.integers(20, 80)) if spec["objective"] == "four" else None
+    return spec
+
+
+def _cobyla_worker(spec):
+    from ..common import RunTimeout, is_env_crash, run_limit
+
+    try:
+        with run_limit():
+            snap = runs.plain_run(spec)
+    except RunTimeout as e:
+        return {"status": "timeout", "detail": str(e)}
+    except Exception as e:  # noqa: BLE001
+        return {"status": "env" if is_env_crash(e) else "crash", "detail": f"{type(e).__name__}: {e}"}
+    bad = [(d["id"], x, f) for d in snap["demes"] if d["cls"] == "LocalDeme" for g in d["hist"] for x, f in g if f == f and abs(f) >= 1e29 and abs(f) != float("inf")]
+    return {"status": "ok", "bad": bad[:3], "local": sum(1 for d in snap["demes"] if d["cls"] == "LocalDeme")}
+
+
+def slice_cobyla(ctx, rng, n):
+    """regression slice for finding D21: COBYLA moderates an infinite objective value to 1e30 in what it
+    reports to the callback; a stored individual must carry what the problem returned (+-inf), never +-1e30"""
+    from ..common import Slice, pmap
+
+    sl = Slice("COBYLA-leaves-on-infinite-values(stored fitness is never scipy's moderated 1e30)")
+    specs = [_cobyla_spec(rng) for _ in range(n)]
+    for spec, r in zip(specs, pmap(_cobyla_worker, specs, chunksize=2)):
+        if r["status"] in ("env", "timeout"):
+            sl.skipped += 1
+            continue
+        if r["status"] == "crash":
+            sl.violations.append({"signature": "C02/run-crashed", "detail": r["detail"], "replay": {"spec": spec}})
+            continue
+        sl.cases += 1
+        if r["local"]:
+            sl.nontrivial.add(runs.spec_id(spec))
+        for did, x, f in r["bad"]:
+            sl.violations.append({"signature": "C02/stored-fitness-wrong/local-search-moderated-infinite-value", "detail": f"local deme {did} stores genome {x} with fitness {f!r}: scipy's moderated copy of an infinite value, not what the problem returned", "replay": {"spec": spec}})
+            break
+    if specs:
+        sl.sample(runs.describe(specs[0]))
+    return sl
+
+
+def _mahalanobis(rng):
+    nlev = int(rng.choice([2, 2, 3]))
+    eng = {0: ["sea", "de", "shade", "ga"], 1: ["cma", "cmaw", "cma"], 2: ["cma", "local", "sea"]}
+    sprout = {
+        "kind": "custom",
+        "generator": str(rng.choice(["nbc", "best"])),
+        "gen_dist_factor": float(rng.uniform(1, 2.5)),
+        "trunc_factor": float(rng.choice([0.7, 1.0])),
+        "deme_filters": ["mahalanobis"] + (["demelimit"] if rng.random() < 0.5 else []),
+        "percentile": float(rng.choice([0.5, 0.95])),
+        "far_enough": 0.1,
+        "fil_dist_factor": 1.0,
+        "norm_ord": 2,
+        "check_only_active": False,
+        "deme_limit": int(rng.integers(1, 3)),
+        "tree_filters": ["levellimit"],
+        "level_limit": int(rng.integers(2, 5)),
+    }
+    return {"nlev": nlev, "engines": eng, "sprout": sprout, "gsc": {"kind": "MetaepochLimit", "limit": int(rng.integers(5, 9))}}
 
 
 def slice_contracted(ctx, rng, n_cases, only="C02/"):
